@@ -94,7 +94,7 @@ func (g *opGen) next(cur *model.Tree) sess.Op {
 	paths := cur.AllPaths()
 	var at model.Path
 	switch kind {
-	case "delete", "replace":
+	case "delete", "replace", "sweep":
 		if len(paths) == 0 {
 			kind = "upsert"
 		} else {
@@ -103,6 +103,38 @@ func (g *opGen) next(cur *model.Tree) sess.Op {
 	default:
 		if len(paths) > 0 && r.Chance(2, 3) {
 			at = paths[r.Intn(len(paths))]
+		}
+	}
+	if kind == "sweep" {
+		// a list with at least two entries; fall back to a plain delete
+		var lists []model.Path
+		for _, p := range paths {
+			if p[len(p)-1].Key == nil {
+				if loc, ok := cur.Resolve(p); ok && loc.Tree == nil && loc.List != nil && len(loc.List.Entries) >= 2 {
+					lists = append(lists, p)
+				}
+			}
+		}
+		if len(lists) == 0 {
+			kind = "delete"
+		} else {
+			at = lists[r.Intn(len(lists))]
+			loc, _ := cur.Resolve(at)
+			es := loc.List.Entries
+			idx := make([]int, len(es))
+			for i := range idx {
+				idx[i] = i
+			}
+			for i := len(idx) - 1; i > 0; i-- {
+				j := r.Intn(i + 1)
+				idx[i], idx[j] = idx[j], idx[i]
+			}
+			n := r.Range(2, len(es))
+			op := sess.Op{Kind: "sweep", At: at}
+			for _, i := range idx[:n] {
+				op.Keys = append(op.Keys, es[i].Key())
+			}
+			return op
 		}
 	}
 	op := sess.Op{Kind: kind, At: at}
